@@ -91,6 +91,7 @@ type Interp struct {
 	inInit   bool
 	jsonBlobs map[*Backing]*jsonBlob
 	blobList  []*jsonBlob
+	syncMaps  map[string]*MapV
 	panicVal  Value
 	recovered bool
 	panicking bool
